@@ -8,13 +8,14 @@ VERIF = os.path.dirname(os.path.dirname(os.path.abspath(__file__)))
 
 
 def load_known():
-    path = os.path.join(VERIF, "KNOWN_FINDINGS.jsonl")
+    path = os.path.join(VERIF, "KNOWN_FINDINGS")
     out = []
     if os.path.exists(path):
         for line in open(path):
             line = line.strip()
-            if line and not line.startswith("#"):
+            if line.startswith("{"):
                 out.append(json.loads(line))
+            # "fixed: ..." lines record repaired defects and suppress nothing
     return out
 
 
